@@ -140,17 +140,24 @@ def props_report(prop):
 
 # ------------------------------------------------------------------ Rust harness
 def build_harness(profile="dev"):
-    d = os.path.join(VERIF, "harness", "libdrv")
-    lock_src = os.path.join(REPO, "Cargo.lock")
-    # keep the harness lock file in step with the repository's (offline resolution needs it)
-    args = ["cargo", "build", "--offline"] + (["--release"] if profile == "release" else [])
-    env = {"RUSTFLAGS": "--cfg " + GUARD, "CARGO_TARGET_DIR": TARGET}
-    rc, out = sh(args, cwd=d, env=env, timeout=1200)
-    if rc != 0 and os.path.exists(lock_src):
-        shutil.copy(lock_src, os.path.join(d, "Cargo.lock"))
-        rc, out = sh(args, cwd=d, env=env, timeout=1200)
-    binp = os.path.join(TARGET, "release" if profile == "release" else "debug", "libdrv")
+    """builds libdrv, clidrv (the CLI compiled from the working tree's sources against the in-tree crypto
+    crate) and ffidrv with hooks on; returns (ok, log, path of libdrv)"""
+    env = {"CARGO_TARGET_DIR": TARGET, "KESTREL_LOCK": os.path.join(REPO, "Cargo.lock")}
+    rc, out = sh([os.path.join(VERIF, "harness", "build.sh")], env=env, timeout=1800)
+    if rc != 0:
+        # stale per-crate lock files: reseed from the repository's and retry once
+        for c in ("libdrv", "clidrv", "ffidrv"):
+            try:
+                os.remove(os.path.join(VERIF, "harness", c, "Cargo.lock"))
+            except OSError:
+                pass
+        rc, out = sh([os.path.join(VERIF, "harness", "build.sh")], env=env, timeout=1800)
+    binp = os.path.join(TARGET, "debug", "libdrv")
     return rc == 0 and os.path.exists(binp), out, binp
+
+
+CLIDRV = os.path.join(TARGET, "debug", "clidrv")
+FFI_SO = os.path.join(TARGET, "debug", "libkestrel_ffi_verif.so")
 
 
 def hexs(b):
